@@ -21,6 +21,10 @@ LEVEL = 'model_checking'
 LD = np.longdouble
 
 
+class SharedStage(Exception):
+    pass
+
+
 def _stats_ok(got, x, n_lead, V, what):
     """cached (mean, std) equal those of the leading n_lead entries (rows for 2-D)"""
     lead = np.asarray(x)[:n_lead]
@@ -33,9 +37,14 @@ def _stats_ok(got, x, n_lead, V, what):
     return True
 
 
-def _record(cfg, nsub, bpf, pin, seed, stem):
-    c = dict(cfg, num_subblocks=nsub, bpf=bpf, pin_stats=pin)
+def _record(cfg, nsub, bpf, pin, seed, stem, template=False):
+    c = dict(cfg, num_subblocks=nsub, bpf=bpf, pin_stats=pin, template=template)
     be, src, dig, fb, rq = vharness.make_backend(c, seed=seed)
+    if template:
+        objs = [o for grid in (dig, fb, rq) for row in grid for o in row]
+        objs += [q for row in rq for o in row for q in (o.quantizer_r, o.quantizer_i)]
+        if len(set(id(o) for o in objs)) != len(objs):
+            raise SharedStage('stage objects expanded from a template are shared between antennas / polarisations')
     for fn in guppi.list_files(stem):
         os.remove(fn)
     be.record(output_file_stem=stem, num_blocks=cfg['nb'], length_mode='num_blocks', header_dict={},
@@ -43,13 +52,13 @@ def _record(cfg, nsub, bpf, pin, seed, stem):
     return be, src, dig, fb, rq
 
 
-def _verify(cfg, nsub, bpf, pin, seed, stem, V, res, nrec=1):
+def _verify(cfg, nsub, bpf, pin, seed, stem, V, res, nrec=1, template=False):
     """Record one partition (nrec recordings in a row from the SAME backend) and check each stage by stage.
     Returns the concatenated payload bytes of the first recording (or None)."""
     objs = None
     first = None
     for rec in range(nrec):
-        pl, objs = _verify1(cfg, nsub, bpf, pin, seed, stem, V, res, objs, rec)
+        pl, objs = _verify1(cfg, nsub, bpf, pin, seed, stem, V, res, objs, rec, template)
         if pl is None:
             return None
         if rec == 0:
@@ -57,7 +66,7 @@ def _verify(cfg, nsub, bpf, pin, seed, stem, V, res, nrec=1):
     return first
 
 
-def _verify1(cfg, nsub, bpf, pin, seed, stem, V, res, objs, rec):
+def _verify1(cfg, nsub, bpf, pin, seed, stem, V, res, objs, rec, template=False):
     M, P, r, nb = cfg['M'], cfg['P'], cfg['r'], cfg['nb']
     T = r * M
     sc, nc, npol, bits = cfg['start_chan'], cfg['num_chans'], cfg['npol'], cfg['bits']
@@ -65,7 +74,7 @@ def _verify1(cfg, nsub, bpf, pin, seed, stem, V, res, objs, rec):
     tag = 'nsub=%d bpf=%d pin=%s recording#%d' % (nsub, bpf, pin, rec)
     try:
         if objs is None:
-            be, src, dig, fb, rq = _record(cfg, nsub, bpf, pin, seed, stem)
+            be, src, dig, fb, rq = _record(cfg, nsub, bpf, pin, seed, stem, template=template)
         else:
             be, src, dig, fb, rq = objs
             del src.log[:]
@@ -76,6 +85,9 @@ def _verify1(cfg, nsub, bpf, pin, seed, stem, V, res, objs, rec):
                 os.remove(fn)
             be.record(output_file_stem=stem, num_blocks=cfg['nb'], length_mode='num_blocks', header_dict={},
                       digitize=cfg['digitize'], load_template=False, verbose=False)
+    except SharedStage as e:
+        V('shared_stage_objects', '%s: %s' % (tag, e), site='RawVoltageBackend')
+        return None, None
     except Exception as e:
         V('record_raised', '%s: %s: %s' % (tag, type(e).__name__, e))
         return None, None
@@ -221,11 +233,11 @@ def case_config(c):
                     return _fin(res, c)
         # (a) with the default (per-call) statistics on representative partitions
         for nsub in sorted(set([1, r, 32])):
-            _verify(cfg, nsub, bpfs[-1], False, seed, stem, V, res, nrec=2)
+            _verify(cfg, nsub, bpfs[-1], False, seed, stem, V, res, nrec=2, template=True)
             if viol:
                 return _fin(res, c)
         # a second recording from the same backend with pinned statistics (stale caches would show)
-        _verify(cfg, r, bpfs[0], True, seed, stem, V, res, nrec=2)
+        _verify(cfg, r, bpfs[0], True, seed, stem, V, res, nrec=2, template=True)
         if viol:
             return _fin(res, c)
     finally:
